@@ -30,7 +30,9 @@ func readDir(dir string) Snap {
 		panic(err)
 	}
 	for _, e := range ents {
-		if !e.Type().IsRegular() {
+		// a symbolic link to a file counts as a file with the content of its target (what a reader sees)
+		fi, err := os.Stat(filepath.Join(dir, e.Name()))
+		if err != nil || !fi.Mode().IsRegular() {
 			continue
 		}
 		b, err := os.ReadFile(filepath.Join(dir, e.Name()))
